@@ -9,9 +9,16 @@
   `lcapyTerm` mirrors the dispatch of `LaplaceTransformer.term`; `Gen.*Entry` are generated from the source text
   of `LaplaceTransformer.function`.
 
-  Two groups of theorems:
+  Three groups of theorems:
    (A) transform theorems of the specification (all signals, all non-pole points, any field);
-   (B) every closed-form branch of the code's dispatch computes the transform of the signal its input denotes.
+   (B) every closed-form branch of the code's dispatch computes the transform of the signal its input denotes
+       (const, exp, sin_cos incl. the e^β gain, the GENERATED function table, func, derivative_undef incl. scaled / shifted
+       arguments, integral / convolution recognition, the DiracDelta·x(t) sifting branch, clip_step, reversed steps);
+   (C) anchors: over ℂ with the true exponential the formal transform IS the defining integral on the whole delta-free
+       exponential-polynomial class (`anchor_complex`, `lt_term_is_integral`, `lt_is_integral`), the operations with which `sem`
+       builds signals are pointwise products (`smooth_factor_pointwise`), so the specification value of a product of smooth
+       factors and a step is its integral (`smooth_product_is_integral`), and the code's sin_cos formula is that integral
+       (`sin_cos_is_integral`).  Deltas stay formal pairs.
 -/
 import Lcapy.Proofs.Laplace
 import Lcapy.Proofs.LaplaceEntries
